@@ -133,6 +133,9 @@ var structuralLaws = []struct{ name, src string }{
 	// whole value, the parent, a child): setpath must store exactly x
 	{"setpath-getpath-derived", `. as $v | all(paths, []; . as $p | ($v | getpath($p)) as $old | all(($old | arrays | (.[:1], .[:-1], .[1:], .[:0], .[1:2], . + [0], reverse, .[0]?)), ($old | objects | (del(.[keys[0]?]?), . + {zz: 1}, .[keys[0]?]?)), $v, ($v | getpath($p[:-1])), [$old], {o: $old}; . as $x | ($v | setpath($p; $x) | getpath($p)) == $x))`},
 	{"assign-derived", `. as $v | all(paths(arrays); . as $p | ($v | getpath($p)) as $old | all($old[:1], $old[:-1], $old[:0], $old[1:]; . as $x | ($v | getpath($p) = $x | getpath($p)) == $x))`},
+	// every index of every array, counted from the front and from the back (-length .. length-1)
+	{"setpath-getpath-every-index", `. as $v | all(paths(arrays), ([] | select($v | type == "array")); . as $p | ($v | getpath($p) | length) as $n | all(range(-$n; $n); . as $i | ($v | setpath($p + [$i]; "X") | getpath($p + [$i])) == "X" and ($v | setpath($p + [$i]; "X") | getpath($p) | length) == $n))`},
+	{"delpaths-every-index", `. as $v | all(paths(arrays), ([] | select($v | type == "array")); . as $p | ($v | getpath($p)) as $a | ($a | length) as $n | all(range(-$n; $n); . as $i | ($v | delpaths([$p + [$i]]) | getpath($p)) == ($a | to_entries | map(select(.key != (if $i < 0 then $i + $n else $i end)) | .value))))`},
 	{"tostream-replay-setpath", `(reduce (tostream | select(length == 2)) as [$p, $x] (null; setpath($p; $x))) == .`},
 }
 
